@@ -535,6 +535,11 @@ impl Property for C11 {
             }
         }
         let _ = std::fs::remove_dir_all(&dir);
+        if ctx.tier == Tier::Thorough {
+            // the same generators and oracles once more under the Miri interpreter (ciborium-ll, serde and
+            // hex `unsafe` code reached with truncated / lying / multi-byte inputs; overflow checks on)
+            miri_cross_run(ctx, env, "C11", &[MiriPlan { phase: "hostile", cases: 208 }, MiriPlan { phase: "trees", cases: 64 }, MiriPlan { phase: "versions", cases: 32 }], 540);
+        }
     }
 
     fn run_case(&self, ctx: &mut Ctx, phase: &str, idx: u64, rng: &mut Rng) {
